@@ -58,6 +58,8 @@ type authCase struct {
 	tampered bool
 	badSig   bool
 	cc, ch   string
+	// peer key of the deployed chaincode the request is delivered to, when that chaincode is not named after its channel
+	deliverTo string
 }
 
 func stateSnapshot(ch *Channel) map[string]string {
@@ -81,6 +83,9 @@ func stateEqual(a map[string]string, ch *Channel) bool {
 }
 
 var taskLeadSeq int
+
+// forces the three-task list (failing look-up, another account's key with a junk signature, the request) on the task route
+var taskTriple bool
 
 // authRun sends the request on its route and fills Result/Message/Changed.
 func authRun(w *World, chName string, ac *authCase, tag string) (acceptedAddr string) {
@@ -107,12 +112,24 @@ func authRun(w *World, chName string, ac *authCase, tag string) (acceptedAddr st
 		tasks := []*fpb.Task{{Id: w.Peer.NextTxID(), Method: fn, Args: ac.Args}}
 		lead := ""
 		taskLeadSeq++
-		if taskLeadSeq%2 == 0 {
+		if taskLeadSeq%2 == 0 && !taskTriple {
 			// every other time the request is the SECOND task of the list, behind a genuine request of the
 			// issuer for this chaincode and channel: what the first task established must not carry over
 			lead = "lead" + strconv.Itoa(taskLeadSeq)
-			args := BuildRequest("whoAmI", "", chName, chName, []string{lead}, strconv.FormatUint(1800000000000+uint64(taskLeadSeq), 10), w.Issuer.Members, nil, nil)
+			args := BuildRequest("whoAmI", "", ch.ccName(), ch.channelID(), []string{lead}, strconv.FormatUint(1800000000000+uint64(taskLeadSeq), 10), w.Issuer.Members, nil, nil)
 			tasks = append([]*fpb.Task{{Id: w.Peer.NextTxID(), Method: "whoAmI", Args: args}}, tasks...)
+		}
+		if (taskLeadSeq%3 == 0 || taskTriple) && lead == "" {
+			// every third time the request comes LAST in a list of three: first a properly signed request of a key the
+			// access-control service does not know (its look-up fails), then a request naming another account's key with a junk
+			// signature. The look-ups of a task list are bundled into one call whose answers are cached per key list: an
+			// answer must never be filed under another task's keys.
+			strangerSeq := 9500 + taskLeadSeq
+			stranger := NewUser(strangerSeq, fpb.KeyType_ed25519)
+			a1 := BuildRequest("whoAmI", "", ch.ccName(), ch.channelID(), []string{"s" + strconv.Itoa(taskLeadSeq)}, strconv.FormatUint(1810000000000+uint64(taskLeadSeq), 10), []*User{stranger}, nil, nil)
+			victim := w.NewAccount(fpb.KeyType_ed25519) // a registered account that has never sent anything
+			a2 := BuildRequest("whoAmI", "", ch.ccName(), ch.channelID(), []string{"v" + strconv.Itoa(taskLeadSeq)}, strconv.FormatUint(1820000000000+uint64(taskLeadSeq), 10), victim.Members, []SigMode{SigGarbage}, nil)
+			tasks = append([]*fpb.Task{{Id: w.Peer.NextTxID(), Method: "whoAmI", Args: a1}, {Id: w.Peer.NextTxID(), Method: "whoAmI", Args: a2}}, tasks...)
 		}
 		out := w.ExecTasks(chName, w.Robot.Creator, tasks)
 		if out.Resp == nil || len(out.Resp.GetTxResponses()) != len(tasks) {
@@ -359,7 +376,11 @@ func (aw *authWorld) emit(c *Ctx, ac *authCase, aclMode string, argc int) {
 	if len(ac.Args) > 3 {
 		tag = ac.Args[3]
 	}
-	addr := authRun(aw.w, ac.ch, ac, tag)
+	dest := ac.ch
+	if ac.deliverTo != "" {
+		dest = ac.deliverTo
+	}
+	addr := authRun(aw.w, dest, ac, tag)
 	aclTerm, aclOK, aclAcc := aclTermFor(aw, in, ac, argc, aclMode)
 	if ac.Result == "accept" && (aclAcc == nil || addr != aclAcc.AddrString()) {
 		aclOK = false
@@ -376,7 +397,7 @@ func (aw *authWorld) emit(c *Ctx, ac *authCase, aclMode string, argc int) {
 
 func genC01(c *Ctx) error {
 	c.ShardSize = 150
-	c.Notes["rule"] = "every request is a real signed invocation of a sender-requiring method on one of the four routes (batched submission, task, immediate NBTx, query with sender). Exhaustive part: 3 key types x signer sets of 1..3 keys x policy n in 1..size x every assignment of {valid, blank, corrupted, foreign-key, other-message} to the signature positions, on rotating routes; plus ACL answers {ok, status 500, empty, garbled, black, grey, key-type list short/long/absent} x key types x routes, argument-count variants, garbage signature strings, bad nonces. Non-trivial: rejected, or multi-signature."
+	c.Notes["rule"] = "every request is a real signed invocation of a sender-requiring method on one of the four routes (batched submission, task, immediate NBTx, query with sender). Exhaustive part: 3 key types x signer sets of 1..3 keys x policy n in 0..size+1 (0 = the answer carries no policy, size+1 = a policy larger than the key list) x every assignment of {valid, blank, corrupted, foreign-key, other-message} to the signature positions, on rotating routes; half of the accounts have an access-control answer carrying changed-key transactions (which the chaincode records for an authenticated request); plus ACL answers {ok, status 500, empty, garbled, black, grey, key-type list short/long/absent} x key types x routes, argument-count variants, garbage signature strings, bad nonces. Non-trivial: rejected, or multi-signature."
 	aw, err := newAuthWorld()
 	if err != nil {
 		return err
@@ -388,13 +409,18 @@ func genC01(c *Ctx) error {
 	maxSize := 3
 	for _, kt := range kts {
 		for size := 1; size <= maxSize; size++ {
-			for n := 1; n <= size; n++ {
+			for n := 0; n <= size+1; n++ { // 0: no policy in the answer; size+1: a policy that does not fit the key list
 				members := make([]*User, size)
 				for i := range members {
 					members[i] = w.NewUser(kt)
 				}
 				acc := w.NewAccountOf(members...)
 				acc.ReqN = uint32(n)
+				if (size+n)%2 == 0 {
+					// the access-control answer reports changed-key transactions for this account: the chaincode records
+					// them - for an authenticated request only, a refused one still changes nothing
+					acc.SignedTx = []string{"chg" + strconv.Itoa(size*10+n)}
+				}
 				// all assignments
 				total := 1
 				for i := 0; i < size; i++ {
@@ -426,6 +452,9 @@ func genC01(c *Ctx) error {
 			}
 			acc := w.NewAccountOf(members...)
 			acc.ReqN = uint32(size)
+			if size == 2 {
+				acc.SignedTx = []string{"chg2"}
+			}
 			for _, mode := range []string{"ok", "status", "empty", "garbled", "black", "grey", "kt_short", "kt_long", "kt_none"} {
 				for r := 0; r < 4; r++ {
 					ac := aw.buildAuth("tt", r, acc, nil, mode)
@@ -434,6 +463,17 @@ func genC01(c *Ctx) error {
 			}
 		}
 	}
+	// honest requests of ordinary accounts at the end of three-task lists whose first look-up fails (the order in which the
+	// look-ups are bundled varies from run to run)
+	taskTriple = true
+	for t := c.N(100, 600); t > 0; t-- {
+		acc := w.NewAccount(kts[t%3])
+		acc.ReqN = 1
+		ac := aw.buildAuth("tt", 1, acc, nil, "ok")
+		aw.emit(c, ac, "ok", 2)
+		c.Count("task_behind_failing_lookup")
+	}
+	taskTriple = false
 	// unknown keys, mixed key types in one account, garbage strings, counts, nonce
 	for r := 0; r < 4; r++ {
 		stranger := NewAccount(9000+r, NewUser(9000+r, fpb.KeyType_ed25519)) // not registered with the ACL
